@@ -35,6 +35,9 @@ ASSUMPTIONS = [
     "the value half of the replay clause is judged on runs without external capital flows (a transaction list does not carry flows); "
     "the replaying strategy declares its children as Security objects (ReplayTransactions looks children up with target[name], which does not create lazy children)",
     "positions of a replay that goes bankrupt where the original did not are not judged (its values already differ and are reported)",
+    "the structural key of a replay-value violation is the cause read off two external trade logs (original and replaying run): per (ticker, date) the outlay and the "
+    "commission taken are compared; a commission difference is split at `commission(net quantity, market price)` into an aggregation part (round-trip / split-trades) "
+    "and a price part (spread-and-price-commission); any difference that is none of these, and any value difference the cost differences do not account for, is `plain`",
     "execution price of a (date, ticker) row = cash booked by the logged trades of that date and ticker / (net quantity x multiplier)",
 ]
 
@@ -227,7 +230,7 @@ def tOF(x):
 def hist_request(h, nid):
     toks = ["report hist", E.tB(h["fi"]), E.tB(h["bo_set"]), str(len(h["nodes"]))]
     for n in h["nodes"]:
-        toks += [str(nid[n["full"]]), str(nid[n["short"]]), E.tB(n["sec"])]
+        toks += [str(nid[n["full"]]), str(nid[n["short"]]), E.tB(n["sec"]), E.tF(n["mult"])]
     toks.append(str(h["T"]))
     for t in range(h["T"]):
         toks.append(str(len(h["nodes"])))
@@ -483,8 +486,7 @@ def monitor(h, rep, log):
                 if nav == 0:
                     continue
                 if not near(got[t], want):
-                    branch = "no-securities" if not secs else "formula"
-                    fail("C18/turnover:" + branch, "turnover on %s is %r; purchases %r, sales %r, NAV %r give %r" % (dates[t].date(), got[t], buys, sells, nav, want))
+                    fail("C18/turnover:formula", "turnover on %s is %r; purchases %r, sales %r, NAV %r give %r" % (dates[t].date(), got[t], buys, sells, nav, want))
                     break
         # --- the Result's price series is the strategy's index
         sp = root["price"]
@@ -576,15 +578,7 @@ def monitor_transactions(h, tx, log, tickers, secs, aggpos):
         else:
             want = cash / (q * mult)
         if px != px or abs(px * q * mult - want * q * mult) > 1e-9 * max(1.0, gross_cash, abs(want * q * mult)):
-            paid_by = [n["full"] for n in by_ticker[k] if any((tr["after"][5] - tr["before"][5]) != 0 for tr in trades.get((n["full"], t), []))]
-            if mult != 1.0 and spread != 0:
-                branch = "multiplier-spread"
-            elif len(by_ticker[k]) > 1 and any(f != by_ticker[k][-1]["full"] for f in paid_by):
-                branch = "shared-ticker-spread"
-            elif len(ex) > 1:
-                branch = "several-trades"
-            else:
-                branch = "single-trade"
+            branch = "several-trades" if len(ex) > 1 else "single-trade"
             fail("C18/transaction-price:" + branch, "%s on %s: listed price %r for quantity %r; executed %r at market %r with spread paid %r (multiplier %r): execution price %r"
                  % (k, dates[t].date(), px, q, [(tr["sec"], tr["q"]) for tr in ex], ex[0]["price"], spread, mult, want))
     return out
@@ -635,14 +629,6 @@ def run_classes(case, h, log):
     spread = any((tr["after"][5] - tr["before"][5]) != 0 for tr in log)
     if spread and spec["comm"][0] in PRICE_COMM:
         cls.add("spread-and-price-commission")
-    if spread and any(tr["mult"] != 1.0 and (tr["after"][5] - tr["before"][5]) != 0 for tr in log):
-        cls.add("multiplier-spread")
-    nsec = {}
-    for n in h["nodes"]:
-        if n["sec"]:
-            nsec[n["short"]] = nsec.get(n["short"], 0) + 1
-    if spread and any(nsec.get(short.get(tr["sec"]), 0) > 1 and (tr["after"][5] - tr["before"][5]) != 0 for tr in log):
-        cls.add("shared-ticker-spread")
     stacks = []
     if case["kind"] == "gen":
         stacks = [spec["tree"]["stack"]] + [k["stack"] for k in spec["tree"]["kids"]]
@@ -651,7 +637,80 @@ def run_classes(case, h, log):
     return cls
 
 
-BRANCH_ORDER = ["multiplier-spread", "shared-ticker-spread", "round-trip", "split-trades", "spread-and-price-commission"]
+CAUSES = ["round-trip", "split-trades", "spread-and-price-commission"]     # the remaining defects of the replay clause
+
+
+def _cost(tr):
+    return tr["before"][1] - tr["after"][1]          # what the trade took from the strategy's cash (commission included)
+
+
+def _outlay(tr):
+    return tr["after"][4] - tr["before"][4]          # outlay booked (spread included, commission excluded)
+
+
+def attribute_costs(h, log1, log2, scale):
+    """compares, per (ticker, date), the cash the original trades took with the cash the replayed row took, and names the
+    cause of every difference: {cause: message}, plus the cost difference per date.  Causes: 'round-trip' (trades of both
+    directions netted or vanished), 'split-trades' (several same-direction trades listed as one row: non-linear commission),
+    'spread-and-price-commission' (the replayed commission is charged on the spread-inclusive price), 'plain' (anything else)."""
+    datepos = {d: i for i, d in enumerate(h["dates"])}
+
+    def groups(log):
+        g = {}
+        for tr in log:
+            g.setdefault((tr["sec"].split(">")[-1], datepos.get(pd.Timestamp(tr["now"]))), []).append(tr)
+        return g
+    g1 = groups(log1)
+    g2 = groups(log2)
+    amount = {}       # cause -> total absolute cash difference attributed to it
+    worst = {}        # cause -> (largest single difference, message)
+    per_date = {}
+    cap = 1.0
+    for key in sorted(set(g1) | set(g2), key=lambda kt: (kt[1] if kt[1] is not None else -1, kt[0])):
+        k, t = key
+        l1 = g1.get(key, [])
+        l2 = g2.get(key, [])
+        o1 = sum(_outlay(tr) for tr in l1)
+        o2 = sum(_outlay(tr) for tr in l2)
+        f1 = sum(_cost(tr) - _outlay(tr) for tr in l1)
+        f2 = sum(_cost(tr) - _outlay(tr) for tr in l2)
+        cap = max([cap] + [abs(tr["before"][1]) for tr in l1 + l2] + [abs(_outlay(tr)) for tr in l1 + l2])
+        per_date[t] = per_date.get(t, 0.0) + (o2 + f2) - (o1 + f1)
+        where = "%s on %s" % (k, h["dates"][t].date() if t is not None else "?")
+
+        def add(cause, x, msg):
+            amount[cause] = amount.get(cause, 0.0) + abs(x)
+            if abs(x) > worst.get(cause, (0.0, ""))[0]:
+                worst[cause] = (abs(x), "%s: %s" % (where, msg))
+        if not l1 or len(l2) > 1:
+            add("plain", (o2 + f2) - (o1 + f1), "the replay traded %r where the original traded %r" % ([tr["q"] for tr in l2], [tr["q"] for tr in l1]))
+            continue
+        mixed = len({tr["q"] > 0 for tr in l1}) > 1
+        several = "round-trip" if mixed else "split-trades"
+        q = sum(tr["after"][0] - tr["before"][0] for tr in l1)
+        p, m, comm = l1[0]["price"], l1[0]["mult"], l1[0]["comm"]
+        spread = sum(tr["after"][5] - tr["before"][5] for tr in l1)
+        fee_mid = float(comm(q, p * m)) if l2 else 0.0       # commission of ONE trade of the net quantity at the market price
+        if mixed and not l2:
+            add("round-trip", o2 - o1, "trades %r net to nothing and are not listed: their outlay %r (spread) is not replayed" % ([tr["q"] for tr in l1], o1))
+        else:
+            add("plain", o2 - o1, "outlay of the original trades %r, of the replayed row %r" % (o1, o2))
+        if len(l1) > 1:
+            add(several, fee_mid - f1, "trades %r paid %r of commission; one trade of the net quantity %r pays %r" % ([tr["q"] for tr in l1], f1, q, fee_mid))
+        else:
+            add("plain", fee_mid - f1, "the single trade %r paid %r of commission, recomputed %r" % (l1[0]["q"], f1, fee_mid))
+        if l2:
+            px = l2[0]["custom"]
+            expect = float(comm(l2[0]["q"], px * m)) if px is not None else float("nan")
+            if spread != 0 and abs(f2 - expect) <= 1e-9 * max(1.0, abs(expect), abs(f2)) + 1e-15 * cap:
+                add("spread-and-price-commission", f2 - fee_mid, "commission at the market price %r is %r, the replay charged %r on the listed price %r" % (p, fee_mid, f2, px))
+            else:
+                add("plain", f2 - fee_mid, "the replayed row paid %r of commission; at the market price %r, at its listed price %r" % (f2, fee_mid, expect))
+    # a cause counts when the cash attributed to it is visible at the scale the values are judged at (the trade logs measure
+    # cash as differences of the strategy's capital: absolute noise ~1e-16 x capital per trade)
+    causes = {c: worst[c][1] for c in amount if amount[c] > 2e-10 * scale}     # values are judged at 1e-9 x scale, four causes
+    gross = cap
+    return causes, per_date, gross
 
 
 def replay_clause(bt, case, run, h, rep, log):
@@ -662,13 +721,15 @@ def replay_clause(bt, case, run, h, rep, log):
         return out, None
     b = run["b"]
     cls = run_classes(case, h, log)
-    branch = next((x for x in BRANCH_ORDER if x in cls), "plain")
     try:
-        b2 = build_replay(bt, case, run, h, tx)
-        b2.run()
+        with R.trade_log(bt) as log2:
+            b2 = build_replay(bt, case, run, h, tx)
+            b2.run()
     except Exception as e:  # noqa
-        out.append(("C18/replay-raised:%s:%s" % (type(e).__name__, branch), "replaying the transaction list raised %s: %s" % (type(e).__name__, str(e)[:200])))
+        out.append(("C18/replay-raised:%s" % type(e).__name__, "replaying the transaction list raised %s: %s" % (type(e).__name__, str(e)[:200])))
         return out, None
+    top2 = id(b2.strategy)
+    log2 = [t for t in log2 if t["paper"] == top2]
     tickers = sorted({n["short"] for n in h["nodes"] if n["sec"]})
     dates = h["dates"]
     T = h["T"]
@@ -678,7 +739,7 @@ def replay_clause(bt, case, run, h, rep, log):
     except Exception as e:  # noqa
         out.append(("C18/replay-raised:positions:%s" % type(e).__name__, "positions of the replay could not be read: %s" % str(e)[:200]))
         return out, None
-    info = {"b2": b2, "branch": branch, "classes": sorted(cls)}
+    info = {"b2": b2, "classes": sorted(cls)}
     bad = None
     # a replay that goes bankrupt where the original did not (its values are already off: reported below) is liquidated
     # by the engine; its positions say nothing about the list any more
@@ -698,19 +759,33 @@ def replay_clause(bt, case, run, h, rep, log):
         if bad:
             break
     if bad:
-        out.append(("C18/replay-positions:" + branch, "replaying the transaction list does not reproduce the positions: " + bad))
-    if "flows" not in cls:
-        v1 = np.asarray(b.strategy.values.values, dtype=float)
-        v2 = np.asarray(b2.strategy.values.values, dtype=float)
-        scale = max(1.0, float(np.max(np.abs(v1))) if len(v1) else 1.0)
-        if len(v1) != len(v2):
-            out.append(("C18/replay-values:" + branch, "value series of different length: %d vs %d" % (len(v1), len(v2))))
-        else:
-            for t in range(len(v1)):
-                if not (abs(v1[t] - v2[t]) <= 1e-9 * scale):
-                    out.append(("C18/replay-values:" + branch, "replaying the transaction list does not reproduce the values: on %s original %r, replayed %r (run classes %s)"
-                                % (dates[t].date(), v1[t], v2[t], sorted(cls))))
-                    break
+        out.append(("C18/replay-positions:mismatch", "replaying the transaction list does not reproduce the positions: " + bad))
+    if "flows" in cls:
+        return out, info
+    v1 = np.asarray(b.strategy.values.values, dtype=float)
+    v2 = np.asarray(b2.strategy.values.values, dtype=float)
+    if len(v1) != len(v2):
+        out.append(("C18/replay-values:plain", "value series of different length: %d vs %d" % (len(v1), len(v2))))
+        return out, info
+    scale = max(1.0, float(np.max(np.abs(v1))) if len(v1) else 1.0)
+    first = next((t for t in range(len(v1)) if not (abs(v1[t] - v2[t]) <= 1e-9 * scale)), None)
+    # the cause of a difference is read off the cash each (ticker, date) took in the two runs (external trade logs)
+    causes, per_date, gross = attribute_costs(h, log, log2, scale)
+    if not liquidated and not b.strategy.bankrupt and not bad:
+        # with equal positions and prices the value difference is minus the cumulated cost difference: anything else is unexplained
+        cum = 0.0
+        for t in range(len(v1)):
+            cum += per_date.get(t, 0.0)
+            if not (abs((v2[t] - v1[t]) + cum) <= 1e-9 * max(scale, gross)):
+                causes.setdefault("plain", "on %s the values differ by %r, the costs of the listed and vanished trades by %r" % (dates[t].date(), v2[t] - v1[t], cum))
+                break
+    if first is not None:
+        if not causes:
+            causes["plain"] = "no (ticker, date) paid a different amount in the two runs"
+        for c in CAUSES + ["plain"]:
+            if c in causes:
+                out.append(("C18/replay-values:" + c, "replaying the transaction list does not reproduce the values: first on %s original %r, replayed %r; cause %s — %s"
+                            % (dates[first].date(), v1[first], v2[first], c, causes[c])))
     return out, info
 
 
